@@ -782,3 +782,86 @@ def straddling_strings(ctx):
                     out.append(('y eq "%s"' % s_, obj({'y': I(1)}), 'straddling-string'))
                     out.append(('y co "%s" or zz eq "%s"' % (s_, s_), obj({'y': ('b', True)}), 'straddling-string'))
     return out
+
+# ----------------------------------------------------------------------------
+# batch 14
+# ----------------------------------------------------------------------------
+def repeated_groups(ctx):
+    """the same compound group more than once in a rule, negated here and plain there; neighbours that differ only in the case of an
+    attribute name: (text, obj, fam, (component texts, fn))"""
+    out = []
+    G = ['a eq 1 or b eq 2', 'a eq 1 and b eq 2', 'a pr or zz pr', 'not (a eq 1) or b eq 2']
+    objs = [obj({'a': I(1), 'b': I(2), 'c': I(3)}), obj({'a': I(0), 'b': I(0), 'c': I(3)}), obj({'a': I(1), 'b': I(0), 'c': I(0)}), obj({'a': I(0), 'b': I(2), 'c': I(3)}), obj({})]
+    ev = {'a eq 1 or b eq 2': lambda a, b: a or b, 'a eq 1 and b eq 2': lambda a, b: a and b}
+    for g in G:
+        forms = ['not (%(g)s) and c eq 3 or (%(g)s)', '(%(g)s) and c eq 3 or not (%(g)s)', 'not (%(g)s) or (%(g)s)', '(%(g)s) and not (%(g)s)', 'not (%(g)s) and (%(g)s)', '(%(g)s) or c eq 3 and not (%(g)s)',
+                 'not (%(g)s) and not (%(g)s) or (%(g)s)', '(not (%(g)s)) or c eq 4 or (%(g)s)', 'c eq 3 and not (%(g)s) or c eq 3 and (%(g)s)', 'not ((%(g)s)) or ((%(g)s)) and c eq 3']
+        for f in forms:
+            for o in objs:
+                out.append((f % {'g': g}, o, 'repeated-groups', None))
+    # case twins as neighbours
+    for (p1, p2) in [('Name', 'name'), ('a.B', 'a.b'), ('A.b', 'a.b'), ('user.ID', 'user.id'), ('x', 'X')]:
+        def mk(p1v, p2v):
+            return _obj_from_paths({p1: p1v, p2: p2v}) if p1.split('.')[0] != p2.split('.')[0] or True else None
+        for (v1, v2) in [(S('x'), S('y')), (S('y'), S('x')), (I(1), I(2)), (S('x'), S('x'))]:
+            try:
+                o = _obj_from_paths({p1: v1, p2: v2})
+            except Exception:
+                continue
+            lit = '"x"' if v1[0] == 's' else '1'
+            for conn, fn in (('or', lambda a, b: a or b), ('and', lambda a, b: a and b)):
+                out.append(('%s eq %s %s %s eq %s' % (p1, lit, conn, p2, lit), o, 'case-twin-neighbours', (['%s eq %s' % (p1, lit), '%s eq %s' % (p2, lit)], fn)))
+                out.append(('%s eq %s %s %s eq %s' % (p2, lit, conn, p1, lit), o, 'case-twin-neighbours', (['%s eq %s' % (p2, lit), '%s eq %s' % (p1, lit)], fn)))
+                out.append(('(%s pr) %s (%s pr)' % (p1, conn, p2), o, 'case-twin-neighbours', (['%s pr' % p1, '%s pr' % p2], fn)))
+                out.append(('%s EQ %s %s %s eq %s' % (p1, lit, conn, p1, lit.upper()), o, 'case-twin-neighbours', (['%s EQ %s' % (p1, lit), '%s eq %s' % (p1, lit.upper())], fn)))
+    return out
+
+def self_reference_literals(ctx):
+    """literals that look like references to other attributes of the object: a literal denotes its characters"""
+    out = []
+    refs = ['$.x', '$.name', '$.n.x', '$x', '@name', '{{name}}', '${name}', '#name', '$[0]', '$.path', '$', '$.', '@', 'this.name', '.name', 'name', '$.Name', '%name%', '<name>', '&name']
+    for r in refs:
+        o = obj({'x': S('alice'), 'name': S('alice'), 'path': S(r), 'n': {'x': S('alice')}})
+        for op in ('eq', 'ne', 'co', 'sw', 'ew', 'lt', 'ge'):
+            for attr in ('x', 'name', 'path', 'n.x'):
+                out.append(('%s %s "%s"' % (attr, op, r), o, 'self-reference-literals'))
+        out.append(('name in ["%s", "zz"]' % r, o, 'self-reference-literals'))
+        out.append(('path in ["%s", "zz"]' % r, o, 'self-reference-literals'))
+    return out
+
+def version_boundaries(ctx):
+    """version components at powers of two and their neighbours, against the version one carry further: (attr text, literal text)"""
+    out = []
+    bs = []
+    for k in (8, 10, 16, 20, 21, 22, 24, 31, 32, 40, 42, 48, 53, 63):
+        bs += [2 ** k - 1, 2 ** k, 2 ** k + 1]
+    for b in bs:
+        pairs = [('1.0.%d' % b, '1.1.0'), ('1.%d.7' % b, '2.0.7'), ('%d.0.0' % b, '%d.0.0' % (b + 1)), ('1.0.%d' % b, '1.0.5'), ('1.0.%d' % b, '1.0.%d' % b), ('2.%d.7' % b, '3.0.7'), ('1.%d.0' % b, '1.%d.0' % (b - 1)),
+                 ('0.0.%d' % b, '0.1.0'), ('1.1.0', '1.0.%d' % b)]
+        out += pairs
+    return out
+
+def sentence_prefixes(ctx):
+    """every proper prefix of sentences whose left operand already decides the rule: a text that stops inside a sentence is no sentence"""
+    out = []
+    sents = ['y eq 1 or (x eq 2 and z in [1, 2])', 'y eq 1 or x in [1, 2, 3]', 'y eq 1 or not (x pr)', 'y ne 1 and (x eq "a b" or z eq 1.0.0)', 'y eq 1 or x.a.b co "s"', 'y eq 1 or NOT ( x eq 1.5e3 )',
+             'not (y eq 2) or (x eq 1) and z eq true', 'y eq 1 or x eq null', 'y in [1] or ((x eq 2))']
+    for s_ in sents:
+        for i in range(1, len(s_)):
+            out.append(s_[:i])
+            if s_[i - 1] != ' ':
+                out.append(s_[:i] + ' ')
+    return out
+
+def literal_spellings(ctx):
+    """the same attribute compared twice with literals that are equal but spelled differently (and with ones that are not equal): (A, B, object)"""
+    out = []
+    for (l1, l2, vals) in [('"abc"', '"ABC"', [S('abc'), S('ABC'), S('x')]), ('2', '2.0', [I(2), F(2.0), I(3)]), ('1.2.3', '"1.2.3"', [S('1.2.3'), S('1.2.4')]), ('"a"', '"b"', [S('a'), S('b')]), ('1', '01.0', [I(1), F(1.0)]),
+                           ('2.50', '2.5', [F(2.5), I(2)]), ('1.0.0', '1.0.0', [S('1.0.0'), S('1.0.0+b')]), ('true', 'true', [('b', True), ('b', False)]), ('"(", ")"'.split(', ')[0], '")"', [S('('), S(')')])]:
+        for v in vals:
+            o = obj({'x': v, 'y': v, 'k': I(1)})
+            out.append(('x eq %s' % l1, 'x eq %s' % l2, o))
+            out.append(('x eq %s' % l1, 'y eq %s' % l2, o))
+            out.append(('x ne %s' % l1, 'x eq %s' % l2, o))
+            out.append(('x in [%s]' % l1, 'x eq %s' % l2, o) if not l1.startswith('t') and '.' not in l1[1:-1].replace('.', '', 1) or True else ('x eq %s' % l1, 'x eq %s' % l2, o))
+    return out
